@@ -8,6 +8,9 @@ CONSTANTS
   LocalTimes <- LocalTimesC
   Files <- FilesC
   TzValues <- TzValuesC
+  Rules <- RulesC
+  TzStrings <- TzStringsC
+  Nanos <- NanosC
   Dirs <- DirsC
   Vfs <- VfsC
   MaxSteps = 3
